@@ -106,7 +106,7 @@ SPEC = dict(
         'sr_scope_or_nullptr': dict(file=H, sig=r'scope_reference::scope_or_nullptr\(async_scope\* scope\) noexcept', ctx=sr_ctx),
         'sr_dtor': dict(file=H, sig=r'inline scope_reference::~scope_reference\(\)', ctx=sr_ctx),
         # ---- the nest operation's constructors
-        'nop_ctor': dict(file=H, sig=r'explicit type\(Sender2&& s, Receiver2&& r, scope_reference&& scope\) noexcept\(', within=NOP, ctx=nop_ctx),
+        'nop_ctor': dict(file=H, sig=r'explicit type\(Sender2&& s, Receiver2&& r, scope_reference&& scope\) noexcept\(\s*std::is_nothrow_constructible_v<Receiver, Receiver2>&&\s*is_nothrow_connectable_v<Sender2, nest_receiver<Sender, Receiver>>\)', within=NOP, ctx=nop_ctx),
         'nop_ctor_scope_init': dict(file=H, kind='expr', sig=r'is_nothrow_connectable_v<Sender2, nest_receiver<Sender, Receiver>>\)\s*: scope_\(([^;{}]*?)\)\s*, receiver_\(', within=NOP, ctx=nop_ctx),
         'nop_ctor_rcv_init': dict(file=H, kind='expr', sig=r'is_nothrow_connectable_v<Sender2, nest_receiver<Sender, Receiver>>\)\s*: scope_\([^;{}]*?\)\s*, receiver_\(([^;{}]*?)\) \{', within=NOP, ctx=nop_ctx),
         'nop_ctor_rv': dict(file=H, sig=r'explicit type\(Receiver&& r\) noexcept\(\s*std::is_nothrow_move_constructible_v<Receiver>\)', within=NOP, ctx=nop_ctx),
@@ -129,13 +129,36 @@ SPEC = dict(
         dict(name='move_ctor', harness='h_move_ctor', enforce='nest_sender_move_ctor'),
         dict(name='dtor', harness='h_dtor', enforce='nest_sender_dtor'),
         dict(name='assign', harness='h_assign', enforce='nest_sender_assign'),
+        dict(name='scope_reference_copy_ctor', harness='h_sr_copy_ctor', enforce='scope_reference_copy_ctor', props=['C08', 'C09']),
+        dict(name='scope_reference_move_ctor', harness='h_sr_move_ctor', enforce='scope_reference_move_ctor', props=['C08', 'C09']),
+        dict(name='scope_reference_dtor', harness='h_sr_dtor', enforce='scope_reference_dtor', props=['C08', 'C09']),
+        dict(name='scope_reference_assign_move', harness='h_sr_assign_move', enforce='scope_reference_assign_move', props=['C08', 'C09']),
+        dict(name='scope_reference_assign_copy', harness='h_sr_assign_copy', enforce='scope_reference_assign_copy', props=['C08', 'C09']),
+        dict(name='nest_op_ctor', harness='h_nop_ctor', enforce='nest_op_ctor'),
+        dict(name='nest_op_ctor_empty', harness='h_nop_ctor_empty', enforce='nest_op_ctor_empty'),
+        dict(name='connect_move', harness='h_connect_move', enforce='nest_sender_connect_move'),
+        dict(name='connect_copy', harness='h_connect_copy', enforce='nest_sender_connect_copy'),
+        dict(name='debug_scope_nest', harness='h_dbg_nest', enforce='debug_scope_nest', props=['C08']),
+        dict(name='debug_scope_join', harness='h_dbg_join', enforce='debug_scope_join', props=['C08']),
+        dict(name='debug_scope_joined', harness='h_dbg_joined', enforce='debug_scope_joined', props=['C08']),
+        dict(name='debug_scope_join_started', harness='h_dbg_join_started', enforce='debug_scope_join_started', props=['C08']),
+        dict(name='debug_scope_use_count', harness='h_dbg_use_count', enforce='debug_scope_use_count', props=['C08']),
         dict(name='lemma_nest_sender', harness='lemma_nest_sender', mode='lemma'),
+        dict(name='lemma_conservation', harness='lemma_conservation', mode='lemma'),
     ],
     assumptions=[
-        'scope_reference copy construction is try_record_start (null when the scope is closed), its destructor is record_completion: both proved in group scope_v2; here each is an event with a counter',
-        'by-value parameter semantics of operator=(type rhs) / scope_reference::operator=(scope_reference rhs) (move construction of the parameter, destruction at the end of the call) are written out in the harness, not extracted',
-        'member destruction after a destructor body (~scope_reference for scope_) is written out in the harness',
-        'connect() on a nest sender (scope_guard + nest_op construction) is not reached here; _nest_receiver::complete is in group scope_v2',
+        'try_record_start / record_completion are contract stubs on the scope word (opState_ = 2*count + open) under the rely of group scope_v2 (open bit only 1->0, closed => count non-increasing, count >= units held by this party, count < 2^40); their real bodies are proved in scope_v2',
+        'by-value parameter semantics of operator=(type rhs) / scope_reference::operator=(scope_reference rhs) (copy / move construction of the parameter, destruction at the end of the call) are written out in the template, not extracted',
+        'member destruction after a destructor body (~scope_reference for scope_), destruction of the already constructed members (receiver_, scope_: reverse order) when an exception leaves the _nest_op constructor, and construction of connect\'s result in the caller\'s return slot (guaranteed elision) are written out in the template (C++ semantics)',
+        'an exception leaves connect through the same exits as the return statement (the same locals are destroyed on both edges); exception specifications are dropped: G.may_throw = the receiver\'s constructor / connect of the wrapped sender may throw',
+        'activate_union_member_with has the strong exception guarantee (a throwing connect leaves op_ un-activated; its scope_guard)',
+        'a destroyed scope_reference object is modelled as empty (double destruction of one object is not expressible: placement of destructor calls is C++ semantics)',
+        '_nest_receiver::complete is in group scope_v2, _nest_op start / destructor and v2 nest() in group scope_v1; nest.hpp (_nest_fn) only forwards to tag_invoke / scope.nest and is not extracted',
+        'v2 debug_async_scope: only the composition is stated (nest = scope_.nest(debug_scope_sender{sender, &ops_}); join / joined / join_started / use_count forward to scope_); detail::debug_scope_sender / debug_op_list (a diagnostic operation list) are not reached',
     ],
-    drops=['manual_lifetime<Sender> construct / destruct -> event stubs with an alive ghost per object', 'scope_reference converted to bool -> SR_BOOL', 'static_assert dropped', 'exception specifications'],
+    drops=['manual_lifetime<Sender> construct / destruct -> event stubs with an alive ghost per object', 'scope_reference converted to bool -> SR_BOOL', 'static_assert dropped', 'exception specifications',
+           'connect: `auto scope = [std::move](s).scope_` -> declaration + sr_move / sr_copy (extracted constructor text) + destructor by the raii rule; scope_guard destroySender -> armed flag + VF_GUARD_destroySender() before every return of its block and at the block end; `return nest_op<..>{args}` -> nest_op_ctor[_empty](ret, args); s.sender_.get() -> the nest sender that stores the wrapped sender',
+           '_nest_op constructor: activate_union_member_with(op_, connect lambda) -> EV_connect_inner(this, s) (may throw); receiver_(..) mem-initialiser -> EV_receiver_construct (may throw); std::move(x) in a scope_reference mem-initialiser -> SR_RVALUE (selects move vs copy constructor)',
+           'debug_async_scope: debug_scope_sender_t<Sender>{sender, &ops_} -> EV_debug_wrap; scope_.nest / join / joined / join_started / use_count -> EV_v2_*',
+           'template genericity (Sender, Receiver are tokens), receiver payloads'],
 )
